@@ -85,6 +85,22 @@ Theorem C03_per_well_cost : forall (simple : bool) (coef : Q * Q * Q) (d per_m a
 Proof. exact one_vertical_well_cases. Qed.
 Print Assumptions C03_per_well_cost.
 
+(* non-vertical sections: none for a vertical configuration; uncased sections cost exactly half of cased ones in every pricing
+   branch; priced per metre (independent of the number of sections) when a per-metre figure is given, the SIMPLE correlation is
+   chosen or a section is shorter than 500 m, and by the correlation per section otherwise *)
+Theorem C03_lateral_cost : forall (pm simple cased : bool) (coef : Q * Q * Q) (nsec len per_m adj : Q),
+  lateral_cost true pm simple cased coef nsec len per_m adj = 0 /\
+  (forall v, lateral_cost v pm simple false coef nsec len per_m adj == (1 # 2) * lateral_cost v pm simple true coef nsec len per_m adj) /\
+  (~ nsec == 0 -> pm = true \/ simple = true \/ len / nsec < 500 ->
+     lateral_cost false pm simple cased coef nsec len per_m adj == adj * ((if cased then 1 else 1 # 2) * (per_m * len) / 1000000)) /\
+  (500 <= len / nsec ->
+     lateral_cost false false false cased coef nsec len per_m adj == adj * ((if cased then 1 else 1 # 2) * nsec * quad_cost coef (len / nsec))).
+Proof.
+  intros. split; [apply lateral_vertical_zero|]. split; [intros; apply lateral_uncased_half|].
+  split; [apply lateral_per_metre | apply lateral_by_correlation].
+Qed.
+Print Assumptions C03_lateral_cost.
+
 (* district-heating network: a supplied total is used verbatim, otherwise rate x length / 1000 with the documented
    precedence of piping length, 75 % of road length, population density *)
 Theorem C03_district_network : forall d : dh_in,
